@@ -324,6 +324,11 @@ func (c *Ctx) c14drive(f c14file) {
 				c.Emit("c14."+f.format+".cut", pre+c15hex(f.model[:mk]), r.class)
 			}
 		}
+		if isOk && !f.streamed && k < len(f.data) && mk >= 0 && (!f.ascii || c14tokenBoundary(f.data, k)) {
+			// ok on a strict prefix: only legitimate where the model (= the theorems) also says ok with the same counts
+			c.Note("c14.cut.ok-on-strict-prefix." + f.format)
+			c.Emit("c14.holds.rejects_token_losing_cut", fmt.Sprintf("%s %d %s%s %s", f.format, k, pre, c15hex(f.model[:mk]), r.class), "true")
+		}
 		if isOk && (!f.ascii || c14tokenBoundary(f.data, k)) && (!f.streamed || k%7 == 0 || k > len(f.data)-40) {
 			mode := c14b(f.streamed) // 0 complete (every attribute of the full decode), 1 streamed
 			if f.onePoint {
@@ -534,7 +539,7 @@ func (c *Ctx) c14mesh(nv, ntri int, normals, colors, uvs bool) modeling.Mesh {
 		pos[i] = c14pos(i)
 		nrm[i] = vector3.New(float64(i%3)+1, float64(i%5)+1, -1).Normalized()
 		col[i] = vector3.New(float64(i%200+10)/255, float64(i%100+20)/255, float64(i%50+30)/255)
-		uv[i] = vector2.New(float64(i%8+1)/16, float64(i%4+1)/8)
+		uv[i] = vector2.New(float64(i+1)/256, float64(i+1)/128+0.25) // distinct per vertex, non-zero, float32-exact
 	}
 	var m modeling.Mesh
 	if ntri < 0 {
@@ -668,7 +673,10 @@ func (c *Ctx) c14handPly(variant int) []byte {
 				fmt.Fprintf(&sb, "3 %d %d %d%s", i%nv, (i+1)%nv, (i+2)%nv, nl)
 			}
 		}
-	case 1: // ascii with blank lines and double spaces, texcoord list, point-free tail
+	case 1: // ascii with blank lines and double spaces, a texcoord list with UVs tagged per face, >= 3 faces
+		if nf < 3 {
+			nf = 3 + c.Rng.Intn(3)
+		}
 		sb.WriteString("ply\nformat ascii 1.0\n")
 		fmt.Fprintf(&sb, "element vertex %d\nproperty float x\nproperty float y\nproperty float z\n", nv)
 		fmt.Fprintf(&sb, "element face %d\nproperty list uchar int vertex_index\nproperty list uchar float texcoord\nend_header\n", nf)
@@ -680,7 +688,10 @@ func (c *Ctx) c14handPly(variant int) []byte {
 			}
 		}
 		for i := 0; i < nf; i++ {
-			fmt.Fprintf(&sb, "3 %d %d %d 6 0.5 0.25 0.125 0.75 1 0.0625\n", i%nv, (i+1)%nv, (i+2)%nv)
+			// six UV values tagged by face and corner: a value carried over from another face is visible
+			b := float64(i+1) / 16
+			fmt.Fprintf(&sb, "3 %d %d %d 6 %g %g %g %g %g %g\n", i%nv, (i+1)%nv, (i+2)%nv,
+				b+1.0/128, b+2.0/128, b+3.0/128, b+4.0/128, b+5.0/128, b+6.0/128)
 			if i == 0 {
 				sb.WriteString("\n")
 			}
@@ -792,6 +803,23 @@ func runC14(c *Ctx) {
 		}
 		if f, ok := c.c14plyFile(c.c14handPly(k%4), fmt.Sprintf("ply.hand.%d", k%4)); ok {
 			c.c14drive(f)
+		}
+		// in every iteration of both tiers: ASCII files with a per-face texcoord list, >= 3 faces, distinct UVs —
+		// one hand-written (tagged per face and corner), one from the real writer; every cut is exercised
+		// (the hand-written one is < 900 bytes; the writer's is cut everywhere in its last 300 bytes = the face lines)
+		if k%4 != 1 {
+			if f, ok := c.c14plyFile(c.c14handPly(1), "ply.hand.1"); ok {
+				c.c14drive(f)
+			}
+		}
+		{
+			mesh := c.c14mesh(4+c.Rng.Intn(3), 3+c.Rng.Intn(2), false, false, true)
+			var b bytes.Buffer
+			if err := ply.Write(&b, mesh, ply.ASCII); err == nil {
+				if f, ok := c.c14plyFile(b.Bytes(), "ply.ascii.mesh.uv.small"); ok {
+					c.c14drive(f)
+				}
+			}
 		}
 
 		// --- binary STL ----------------------------------------------------------------------------------------
